@@ -258,7 +258,7 @@ def c04_d(ctx: Ctx):
         return [ctx.inc(R, fi, fi.node, "update_statepoint does not assign self.statepoint")]
     loops = []
     for n in cfg.stmt_nodes():
-        if isinstance(n.ast, ast.For) and "update" in canon(n.ast.iter):
+        if isinstance(n.ast, ast.For) and "update" in canon(common.inline_at(ctx, fi, n.ast.iter, n.ast)):
             ifs = [x for st in n.ast.body for x in walk_no_nested(st) if isinstance(x, ast.If)
                    and any(isinstance(y, ast.Raise) for s2 in x.body for y in walk_no_nested(s2))]
             for x in ifs:
@@ -273,6 +273,7 @@ def c04_d(ctx: Ctx):
         paths, trunc = cfg.paths_to(a.id, kinds="n")
         bad = None
         for path, facts in paths:
+            facts = common.expand_facts(ctx, fi, facts)
             if ("overwrite", True) in facts:
                 continue
             if not any(i in loop_ids for i in path):
@@ -367,4 +368,14 @@ def c04_f(ctx: Ctx):
     return out
 
 
-RULES = [c04_a, c04_b, c04_c, c04_d, c04_e, c04_f]
+@rule("C04-g")
+def c04_g(ctx: Ctx):
+    """move() re-binds everything that depends on the project (same obligation as the move part of C03-b)."""
+    from .c03 import c03_b
+    res = [r for r in c03_b(ctx) if r.function.endswith("Job.move")]
+    for r in res:
+        r.rule = "C04-g"
+    return res
+
+
+RULES = [c04_a, c04_b, c04_c, c04_d, c04_e, c04_f, c04_g]
